@@ -124,9 +124,8 @@ Print Assumptions C11_inbound_needs_accept.
 
 (* ---- the open-request ledger ----
    `ledger` runs a history and keeps, per peer, whether an open request the protocol took up is still
-   owed an answer (owed_next: cleared by Opened / OpenFailure for the peer, or by the user's own Reject of
-   the peer's inbound substream). Outside finding class 2 and as long as no ValidateSubstream replaces
-   an unanswered one (ledger_env), whoever is owed an answer has the outbound half in progress and the
+   owed an answer (owed_next: cleared by Opened / OpenFailure for the peer only). Outside finding
+   classes 2 and 3 (ledger_env), whoever is owed an answer has the outbound half in progress and the
    environment still owes the protocol the event that will produce the answer (obligation): at
    quiescence nothing is owed. *)
 Theorem C11_open_answered :
@@ -160,20 +159,30 @@ Theorem C11_open_answered_refuted :
 Proof. exact C11_open_answered_refuted_pf. Qed.
 Print Assumptions C11_open_answered_refuted.
 
-(* The other hypothesis is needed as well: when a ValidateSubstream replaces an unanswered one, the
-   handle drops the old oneshot, the protocol reads that as a Reject and silently discards the user's
-   own open request (observation recorded with the findings). *)
-Theorem C11_open_answered_needs_validation_answers_refuted :
+(* Finding class 3: the user's Reject of the peer's inbound substream while the user's own open
+   request for that peer is in progress drops the request without an answer (pinned by the
+   integration test both_nodes_open_substream_one_rejects_substreams). *)
+Theorem C11_open_answered_class3_refuted :
   exists (c : cfg) (ops : list op) (s : st) (owed : peer -> bool),
     ledger c init (fun _ => false) ops = Some (s, owed) /\ owed 0 = true /\ in_progress (ps s 0) = false.
-Proof. exact C11_open_answered_needs_validation_answers_refuted_pf. Qed.
-Print Assumptions C11_open_answered_needs_validation_answers_refuted.
+Proof. exact C11_open_answered_class3_refuted_pf. Qed.
+Print Assumptions C11_open_answered_class3_refuted.
 
 (* non-vacuity: a prompt history that opens a stream and closes it *)
 Example C11_notification_dropped_after_close :
   events (fst (run cfg_w init (open_by_user ++ [Notify 0; NotifyDie 0 false]))) =
   [UOpened 0 DOut; UNotif 0; UClosed 0].
 Proof. vm_compute. reflexivity. Qed.
+
+(* the replaced-validation defect (fix: commit) stays fixed: the second ValidateSubstream of this
+   history replaces an unanswered one at the handle, and the user's open request is still in progress
+   with the handshake service owing the next event *)
+Example C11_replaced_validation_keeps_request :
+  match ledger cfg_w0 init (fun _ => false) w_drop with
+  | Some (s, owed) => (owed 0, in_progress (ps s 0), obligation s 0)
+  | None => (false, false, false)
+  end = (true, true, true).
+Proof. exact w_drop_check. Qed.
 
 Example C11_ledger_env_nonvacuous :
   ledger_env cfg_w init (open_by_user ++ [CmdClose 0]) = true /\ feasible cfg_w init open_by_user = true.
